@@ -469,3 +469,16 @@ func (s *Session) ProbeFindings(t testing.TB, run func(f *Finding, path string))
 	}
 }
 
+
+// Journal records the case about to be evaluated, so that a crash of the whole
+// process (stack overflow, fatal error) can be attributed to an input.
+func (s *Session) Journal(c any) {
+	if s.OutPath == "" {
+		return
+	}
+	raw, err := json.Marshal(c)
+	if err != nil {
+		return
+	}
+	_ = os.WriteFile(s.OutPath+".journal", raw, 0o644)
+}
